@@ -111,6 +111,12 @@ def run(check, prog):
     root = prog.root
     stops(check, prog, root)
     handoff(check, prog)
+    # "sphere == Lorenz-Mie" for every call, not only the first on a theory
+    # object: no solver output may be remembered on the theory / module between
+    # calculations (in-place rescaling of a remembered array compounds).  Shared
+    # with C01.
+    from . import c01
+    c01.f5_state(check, prog)
 
 
 def stops(check, prog, root):
